@@ -129,13 +129,16 @@ theorem run_mapLit {α : Type} (hf : ∀ a b, f a = f b → a = b) (p : Prog α)
     rw [Prog.mapLit, run, run]
     exact ih _ st
 
+theorem prepare_mapState (e : Entry) (st : State) : prepare e (mapState f st) = mapState f (prepare e st) := by
+  cases e <;> simp [prepare, mapState, List.filter_map, Function.comp_def]
+
 theorem compile_mapLit {ρ ω : Type} (hf : ∀ a b, f a = f b → a = b) (prog : ρ → Prog ω) (e : Entry) (st : State) (rq : ρ) :
     compile (fun r => (prog r).mapLit f) e (mapState f st) rq =
       ((compile prog e st rq).1, mapState f (compile prog e st rq).2) := by
   unfold compile
   simp only []
-  rw [run_mapLit hf (prog rq) st]
-  rcases run (prog rq) st with ⟨o, st'⟩
+  rw [prepare_mapState, run_mapLit hf (prog rq) (prepare e st)]
+  rcases run (prog rq) (prepare e st) with ⟨o, st'⟩
   cases o with
   | none => rfl
   | some o => cases e <;> rfl
